@@ -447,6 +447,7 @@ pub fn run(ctx: &Ctx) -> Report {
     let shards = 16;
     let rnd = run_shards(shards, |shard| {
         let mut st = Stats::new();
+        poison_parses(40);
         let leaf = prop_oneof![20 => gen::text_leaf(), 1 => Just(E::G(Glob::Depth)), 1 => gen::count_u32().prop_map(|n| E::G(Glob::Threads(n)))];
         let strat = (leaf.clone(), gen::choice_stream(8), 0u8..4);
         run_prop(&mut st, ctx.seed, "C05-member", shard as u64, cases / shards as u32, &strat, |(l, c, w)| judge_member(l, c, *w), |(l, c, w)| member_json(l, c, *w));
